@@ -637,12 +637,17 @@ def rule_k(ctx, ix):
                     if ORDER[per] >= ORDER[sym]:
                         ctx.ob(R, construct, 'the period (%s) is a symmetry of a %s' % (per, cn.name), True)
                         continue
-                    # a shorter period: only as the `elif` right behind the test of the symmetry period on the same angle
-                    par = pm.get(id(iff))
-                    behind = isinstance(iff, ast.If) and isinstance(par, ast.If) and par.orelse == [iff] and any(
-                        isinstance(b2, ast.BinOp) and isinstance(b2.op, ast.Mod) and unparse(b2.left) == unparse(b.left)
-                        and PERIODS.get(unparse(b2.right)) == sym for b2 in ast.walk(expand_locals(fn, par.test))) and not any(
-                        isinstance(u, ast.Not) for u in ast.walk(par.test))
+                    # a shorter period: only on paths on which the test with the symmetry period (same angle) has failed - as its `elif`,
+                    # or after it returned
+                    from .. import cond
+                    behind = False
+                    if isinstance(iff, ast.If):
+                        pc = cond.path_condition(fn, iff, expand=False) or ('const', True)
+                        for other in [x for x in ast.walk(fn) if isinstance(x, ast.If) and x is not iff]:
+                            if any(isinstance(b2, ast.BinOp) and isinstance(b2.op, ast.Mod) and unparse(b2.left) == unparse(b.left)
+                                   and PERIODS.get(unparse(b2.right)) == sym for b2 in ast.walk(expand_locals(fn, other.test))):
+                                if cond.implies(pc, cond.Not(cond.formula(other.test, fn))):
+                                    behind = True
                     ctx.ob(R, construct, 'a test with period %s stands behind the test with the symmetry period %s' % (per, sym), behind,
                            detail='%s.%s takes a shortcut for every angle that is a multiple of %s (`%s`), but a %s is mapped onto itself '
                                   'only by multiples of %s: at the other multiples (%s) the shortcut leaves out a rotation that changes '
